@@ -50,39 +50,45 @@ structure Eqv (g g' : GHE) : Prop where
   field : g.field = g'.field
   hLoad : g.hLoad = g'.hLoad
   heights : g.gf.heights = g'.gf.heights
+  tok : g.gf.tok = g'.gf.tok
+
+theorem lookup_tok (gf : GF) (h : Rat) : (lookup gf h).2.tok = gf.tok := rfl
 
 theorem simulate_eqv (K : Kernels) (b : BH) (g g' : GHE) (m : Method) (he : Eqv g g') :
     (simulate K b g m).1 = (simulate K b g' m).1 ∧ Eqv (simulate K b g m).2 (simulate K b g' m).2 ∧
     (∀ t, (simulate K b g m).1 = .ok t → (simulate K b g m).2.last = (simulate K b g' m).2.last) := by
-  obtain ⟨h1, h2, h3, h4⟩ := he
+  obtain ⟨h1, h2, h3, h4, h5⟩ := he
   have e3 : (lookup g.gf b.H).1 = (lookup g'.gf b.H).1 := by
     rw [lookup_reset g.gf, lookup_reset g'.gf]; unfold lookup; rw [h4]
   unfold simulate
   by_cases hz : b.H = 0
-  · simp only [hz, if_true]; exact ⟨trivial, ⟨h1, h2, h3, h4⟩, fun _ h => by cases h⟩
+  · simp only [hz, if_true]; exact ⟨trivial, ⟨h1, h2, h3, h4, h5⟩, fun _ h => by cases h⟩
   · simp only [hz, if_false]
     have k1 := lookup_heights g.gf b.H
     have k2 := lookup_heights g'.gf b.H
+    have q1 := lookup_tok g.gf b.H
+    have q2 := lookup_tok g'.gf b.H
     rcases hL : lookup g.gf b.H with ⟨r, gf1⟩
     rcases hL' : lookup g'.gf b.H with ⟨r', gf1'⟩
-    rw [hL] at k1 e3
-    rw [hL'] at k2 e3
-    simp only at k1 k2 e3
+    rw [hL] at k1 q1 e3
+    rw [hL'] at k2 q2 e3
+    simp only at k1 k2 q1 q2 e3
     subst e3
     have hh : gf1.heights = gf1'.heights := by rw [k1, k2, h4]
+    have ht : gf1.tok = gf1'.tok := by rw [q1, q2, h5]
     cases r with
-    | error e => exact ⟨rfl, ⟨h1, h2, h3, hh⟩, fun _ h => by cases h⟩
+    | error e => exact ⟨rfl, ⟨h1, h2, h3, hh, ht⟩, fun _ h => by cases h⟩
     | ok look =>
       cases m with
       | hybrid =>
-        simp only [h1, h2, h3]
-        exact ⟨by first | rfl | trivial, ⟨rfl, rfl, rfl, hh⟩, by simp⟩
+        simp only [h1, h2, h3, h5]
+        exact ⟨by first | rfl | trivial, ⟨rfl, rfl, rfl, hh, ht⟩, by simp⟩
       | hourly =>
-        simp only [h1, h2, h3]
+        simp only [h1, h2, h3, h5]
         split_ifs
-        · exact ⟨by first | rfl | trivial, ⟨rfl, rfl, rfl, hh⟩, by simp⟩
-        · exact ⟨by first | rfl | trivial, ⟨rfl, rfl, rfl, hh⟩, by simp⟩
-      | other => exact ⟨rfl, ⟨h1, h2, h3, hh⟩, fun _ h => by cases h⟩
+        · exact ⟨by first | rfl | trivial, ⟨rfl, rfl, rfl, hh, ht⟩, by simp⟩
+        · exact ⟨by first | rfl | trivial, ⟨rfl, rfl, rfl, hh, ht⟩, by simp⟩
+      | other => exact ⟨rfl, ⟨h1, h2, h3, hh, ht⟩, fun _ h => by cases h⟩
 
 /-- Results of a stateful GHE operation on two equivalent objects: same outcome, same borehole,
     equivalent objects. -/
@@ -191,11 +197,11 @@ theorem size_eqv (K : Kernels) (m : Method) (b : BH) (g g' : GHE) (he : Eqv g g'
 
 theorem computeG_eqv (K : Kernels) (b : BH) (g g' : GHE) (he : Eqv g g') :
     (computeG K b g).1 = (computeG K b g').1 ∧ Eqv (computeG K b g).2 (computeG K b g').2 := by
-  obtain ⟨h1, h2, h3, h4⟩ := he
+  obtain ⟨h1, h2, h3, h4, h5⟩ := he
   simp only [computeG, h1, h2]
   split_ifs
-  · exact ⟨rfl, ⟨rfl, rfl, h3, rfl⟩⟩
-  · exact ⟨rfl, ⟨h1, h2, h3, h4⟩⟩
+  · exact ⟨rfl, ⟨rfl, rfl, h3, rfl, rfl⟩⟩
+  · exact ⟨rfl, ⟨h1, h2, h3, h4, h5⟩⟩
 
 /-- States of one GHE + borehole that differ at most in what earlier calls left in the object. -/
 def RelS (s s' : GSt) : Prop := s.b = s'.b ∧ Eqv s.g s'.g
@@ -237,10 +243,11 @@ theorem gstep_eqv (K : Kernels) (op : GOp) (s s' : GSt) (hr : RelS s s') :
     simp only at e1 e2
     subst e1
     cases r <;> exact ⟨rfl, rfl, e2⟩
+  | setGF tok hs => exact ⟨rfl, by simp only [gstep, hb]; exact ⟨rfl, ⟨he.st, he.field, he.hLoad, rfl, rfl⟩⟩⟩
 
 theorem relS_reset (s s' : GSt) (hr : RelS s s') : RelS s (resetS s') := by
-  obtain ⟨hb, ⟨h1, h2, h3, h4⟩⟩ := hr
-  exact ⟨hb, ⟨h1, h2, h3, h4⟩⟩
+  obtain ⟨hb, ⟨h1, h2, h3, h4, h5⟩⟩ := hr
+  exact ⟨hb, ⟨h1, h2, h3, h4, h5⟩⟩
 
 theorem runG_refines (K : Kernels) (ops : List GOp) :
     ∀ (s s' : GSt), RelS s s' → (runG K ops s).1 = specG K ops s' := by
